@@ -33,8 +33,9 @@ import vlib
 
 MODULE = "Sozu"
 DEVS_C07 = ["MasterKeepsRefused", "WorkerKeepsRefused"]
-ALL_INV = "TypeOK P_C07_NoDrift P_C07_RejectedLeavesNoTrace P_C08_Converges P_C09_OkMeansApplied P_ProxiesFollowConfig"
-CODE_INV = "TypeOK P_C08_Converges P_C09_OkMeansApplied"      # what must hold of the code as it is (deviations on)
+PROPS = "TypeOK P_C07_NoDrift P_C07_RejectedLeavesNoTrace P_C08_Converges P_C09_OkMeansApplied P_ProxiesFollowConfig"
+ALL_INV = PROPS + " P_Confluent"
+CODE_INV = "TypeOK P_C08_Converges P_C09_OkMeansApplied P_Confluent"      # what must hold of the code as it is (deviations on)
 ACTIONS = ["Client_Send", "Hub_HandleClientRequest", "Worker_Handle", "Hub_HandleWorkerResponse", "Hub_HandleWorkerClose",
            "Hub_FinishTask", "Hub_TimeoutTask", "Worker_Die", "Hub_StartWorker"]
 
@@ -171,13 +172,13 @@ def model_leg(out, pid, wd, thorough, workers):
         jobs += [("mc_all4", dict(universe="all", ops=4, faults=1), ALL_INV, None, True),
                  ("mc_core4f2", dict(universe="core", ops=4, faults=2), ALL_INV, None, False),
                  ("mc_mute", dict(universe="all", ops=3, faults=1, mute=["1"]), ALL_INV, None, False),
-                 ("mc_slow", dict(universe="core", ops=3, faults=1, slow=True), ALL_INV, None, False),
+                 ("mc_slow", dict(universe="core", ops=3, faults=1, slow=True), PROPS, None, False),
                  ("mc_code", dict(universe="all", ops=3, faults=1, dev=DEVS_C07), CODE_INV, None, False)]
     else:
         jobs += [("mc_core", dict(universe="core", ops=3, faults=1), ALL_INV, None, False),
                  ("mc_tcp", dict(universe="tcp", ops=3, faults=1), ALL_INV, None, False),
                  ("mc_mute", dict(universe="core", ops=3, faults=1, mute=["1"]), ALL_INV, None, False),
-                 ("mc_slow", dict(universe="core", ops=2, faults=1, slow=True), ALL_INV, None, False),
+                 ("mc_slow", dict(universe="core", ops=2, faults=1, slow=True), PROPS, None, False),
                  ("mc_code", dict(universe="core", ops=3, faults=1, dev=DEVS_C07), CODE_INV, None, False)]
     for d in DEVS_C07:
         jobs.append(("dev_" + d, dict(universe="core", ops=3, faults=1, dev=[d]), ALL_INV, d, False))
@@ -415,8 +416,9 @@ def report_outcome(report, prop, out, measured):
         for e in report.findings:
             if e["id"] == fid and e.get("status") == "open":
                 report.known.setdefault(fid, {"n": 0, "what": e["what"]})["n"] += n
-    report.extra.setdefault("compose", {}).update(dict(out.extra, cached=not measured, scripts_replayed=out.scripts,
-                                                       trace_runs_accepted=out.runs_accepted, comparisons=out.compared))
+    section = "measured_this_run" if measured else "reused_from_cache"
+    report.extra.setdefault("compose", {}).setdefault(section, []).append(
+        dict(out.extra, scripts_replayed=out.scripts, trace_runs_accepted=out.runs_accepted, comparisons=out.compared))
 
 
 def replay_one(report, prop, bins, replay):
@@ -477,7 +479,6 @@ def run_leg(report, tier, prop, replay=None):
         trace_leg(fresh, "compose/" + prop, wd, bins, tier == "thorough", vlib.seed() + 104729, runs=24 if tier != "thorough" else 80,
                   tag="fresh")
         report_outcome(report, prop, fresh, True)
-        report.extra["compose"]["cached"] = True
     report.assumptions += [
         "composed leg (spec/Sozu.tla): one sequential client, the harness waits for quiescence between operations and lets the hub notice a worker's death before the next operation; workers are threads of the harness process connected through real socketpair channels (fork/exec of a worker binary is not exercised); a worker's listeners are observed through its answers, not through traffic",
     ]
